@@ -1498,6 +1498,11 @@ class PGPKey(Armorable, ParentRef, PGPObject):
             live = [uid for uid in certified if not retired(uid)]
             sigs = [uid.selfsig for uid in (live or certified)[:1]]
 
+            # a direct-key self-signature is the other place where a key says things about itself (RFC 4880, 5.2.3.3):
+            # the most recent one speaks where the self-certification does not mention the validity period at all
+            if not any(sig.key_expiration is not None for sig in sigs):
+                sigs = list(self.self_signatures)[-1:]
+
         for sig in sigs:
             # a key expiration time of zero means the key never expires (RFC 4880, 5.2.3.6)
             if sig.key_expiration:
